@@ -196,6 +196,10 @@ def run_die(case, emb, pb):
     finally:
         os.remove(src)
     if case["op"] == "split" and d.specialized_regions + d.ground_regions:     # (needs something to split)
+        import zlib
+        if zlib.crc32(repr(case["src"]).encode()) % 2:
+            d.write_yaml()      # every second die is also written BEFORE the refinement (the document is discarded):
+                                # what is written afterwards must still describe the die as it is then
         d.split_refinable_regions(2.0, 4)
     pre = obs_die(d, pb)
     t1 = d.write_yaml()
